@@ -39,6 +39,10 @@ class Budget(BaseException):
     """unit budget exhausted"""
 
 
+class Hang(BaseException):
+    """a single path exceeded its wall-clock limit"""
+
+
 class Violation(BaseException):
     def __init__(self, what, assignment, detail=None):
         self.what, self.assignment, self.detail = what, assignment, detail
@@ -622,10 +626,15 @@ class Engine:
         return out
 
     # -- exploration
-    def run(self, fn, maxpaths=None, deadline=None, on_path=None):
+    def run(self, fn, maxpaths=None, deadline=None, on_path=None, path_timeout=None):
         """explore fn(self) over all feasible paths. returns dict of stats"""
+        import signal
         self.pending = [[]]
         self.deadline = deadline
+        if path_timeout:
+            def _alarm(*a):
+                raise Hang()
+            signal.signal(signal.SIGALRM, _alarm)
         paths = aborted = 0
         viol = []
         exhausted = True
@@ -637,10 +646,28 @@ class Engine:
             self.reset_path(prefix)
             self.solver.push()
             try:
-                fn(self)
+                if path_timeout:
+                    signal.alarm(int(path_timeout))
+                try:
+                    fn(self)
+                finally:
+                    if path_timeout:
+                        signal.alarm(0)
                 paths += 1
                 if on_path:
                     on_path(self, None)
+            except Hang:
+                paths += 1
+                v = Violation("did not terminate within %d s" % path_timeout, None)
+                try:
+                    self.deadline = None
+                    v.assignment = self.assignment()
+                except BaseException:
+                    pass
+                self.deadline = deadline
+                viol.append(v)
+                if on_path:
+                    on_path(self, v)
             except Abort:
                 aborted += 1
             except Violation as v:
